@@ -516,7 +516,7 @@ fn thread_body(c: &SC, clock: &MockClock, cfg: &Cfg, sh: &Arc<Shared>, me: usize
                 Obs::Items(vec![(255, rq as u32), (254, wq as u32), (252, (g0 != g1) as u32)])
             }
             TOp::Adv(n) => {
-                clock.advance(Duration::from_millis(n as u64 * cfg.tick_ms));
+                clock.advance(cfg.ticks(n as u64));
                 Obs::Unit
             }
             TOp::Iter => {
